@@ -77,6 +77,20 @@ def build_model(kind):
         for m in (m1, m2):
             m.add_shutdown_callback(_Repair(mt))
         Sink('K', [m1, m2], collect_parts=True)
+    elif kind == 'group2':
+        # a shared machine used by two paths with different upstreams: both sources block on the group input at once
+        from simprocesd.model.factory_floor import Group
+        m = PartProcessor('M', None, 1)
+        g = Group('G', [m])
+        s1 = Source('S1', PartGenerator('a'), 0.5)
+        s2 = Source('S2', PartGenerator('b'), 0.5)
+        s3 = Source('S3', PartGenerator('c'), 0.5)
+        p1 = g.get_new_group_path('p1', [s1])
+        p2 = g.get_new_group_path('p2', [s2])
+        p3 = g.get_new_group_path('p3', [s3])
+        Sink('K1', [p1], collect_parts=True)
+        Sink('K2', [p2], collect_parts=True)
+        Sink('K3', [p3], collect_parts=True)
     elif kind == 'res':
         s = Source('S', PartGenerator('p'), 0.5)
         m1 = PartProcessor('M1', [s], 1, resources_for_processing={'r': 1})
@@ -146,10 +160,17 @@ def normalise(system):
     return json.dumps(out, default=str, sort_keys=True)
 
 
+_RUN_NO = [0]
+
+
 def one_run(kind, seed, offset, horizon):
     saved = (Asset._id_counter, System._instance, random.getstate())
     try:
         Asset._id_counter = offset
+        # whatever the program did with the random module BEFORE it built the model must not matter once it seeds it
+        _RUN_NO[0] += 1
+        random.seed(7919 * _RUN_NO[0] + offset)
+        junk = [object() for _ in range(_RUN_NO[0] % 7)]       # and neither must where objects happen to live
         s = System()
         build_model(kind)
         prepare(s, kind)
